@@ -229,6 +229,14 @@ def tall_int_curve(rng, nmax=60, nmin=5):
     return np.ascontiguousarray(np.column_stack((x, y)))
 
 
+def block_size(rng, n, p=0.5):
+    """With probability p, move a (long) curve length to a block boundary: a multiple of 256 (powers of two included) -1, +0
+    or +1 - where blocked, strided or grid-seeded code changes path or meets its own last element."""
+    if rng.random() < p:
+        n = max(256 * int(round(n / 256.0)), 256) + int(rng.integers(-1, 2))
+    return n
+
+
 def long_spiky(rng, nlo=4200, nhi=9000):
     """A long curve (thousands of points) whose farthest points are narrow features: a gently bowed base line with a
     few spikes 1..5 samples wide and a step, away from the apex of the smooth trend.  Any search that looks at a
